@@ -88,12 +88,13 @@ def insertAttr (litLe : String → String → Bool) (a : Attr) : List Attr → L
 def isDup (a : Attr) (seen : List Attr) : Bool :=
   seen.any (fun b => b.name == a.name && (a.name != "group" || b.args == a.args))
 
+def printAttrArgs : List String → List Tk
+  | [] => []
+  | l :: ls => .lparen :: (printLits (l :: ls) ++ [.rparen])
+
 /-- `[name]`, `[name(lit, …)]` and the end of the line -/
 def printAttr (a : Attr) : List Tk :=
-  tBracketL :: .ident a.name ::
-    ((match a.args with
-      | [] => []
-      | l :: ls => .lparen :: (printLits (l :: ls) ++ [.rparen])) ++ [tBracketR, tEol])
+  tBracketL :: .ident a.name :: (printAttrArgs a.args ++ [tBracketR, tEol])
 
 def printAttrs : List Attr → List Tk
   | [] => []
